@@ -32,12 +32,16 @@ LEVEL_TEXT = {
             "complete (4 unary x 2, 18 binary x 8 operand-kind combinations, nothing else); the 9 predeclared functions forward all arguments to std::NAME with a "
             "deduced result type. What the compiler makes of it (promotions, result types, values) is validated exhaustively on a stated finite grid: "
             "static_assert on the result type and value comparison initially and after every input change, plus nested expressions under deferred evaluation.", '6/C14'),
-    'C02': ("PARTIAL. Machine-checked on the abstract propagation model (coq/PropAbs.v: markDirty with early return, cached re-evaluation, setHelper with "
-            "equality suppression, nested notification): for every network of unary/binary operator trees, every interpretation of the user functions and "
-            "every delivery order, after every sequence of input assignments that returns, all nodes are clean, all caches equal their denotation and every "
-            "bound property equals its expression. The executable model coq/PropDefs.v (tables, handles, n-ary nodes, moves, rebinding) is tied to the code by "
-            "differential execution and is checked against the property statement itself (PropCheck.check_c02) on every world it reaches; its refinement to the "
-            "abstract model is not proved. Known finding KF-C02-aborted-walk is re-confirmed on every run.", '6/C02'),
+    'C02': ("Machine-checked in three layers. (1) Abstract propagation model (PropAbs.v: markDirty with early return, cached re-evaluation, equality "
+            "suppression, nested notification): after every assignment every bound property equals the denotation of its expression, for every network of "
+            "unary/binary operator trees, every interpretation of the user functions and every delivery order. (2) Refinement (PropSim.v): on the executable "
+            "model that is run against the library (tables, handles, observers, logs) Property::setHelper IS the abstract assignment whenever the immediate "
+            "bindings are unary/binary trees and no observer acts; so a coherent world stays coherent under every assignment that returns normally, and in a "
+            "coherent world every immediately bound property equals its expression recomputed from scratch. (3) Growth (PropGrow.v): coherence is established "
+            "and kept by every history that creates properties, attaches plain observers, binds fresh properties (immediate mode, expressions over existing "
+            "properties incl. bound ones, repeated inputs) and assigns to inputs. PARTIAL: ternary operators, observers that write, rebinding / reset / moves / "
+            "destruction between assignments are covered by the extracted checker check_c02 on every reached world and by correspondence; known finding "
+            "KF-C02-aborted-walk (an exception cutting a notification walk short) is re-confirmed on every run.", '6/C02'),
     'C03': ("Machine-checked on the executable model of Property::setHelper: an equal value changes nothing and logs nothing; any other value notifies every "
             "about-to-change observer with (old, new) while get() = old, stores, then notifies every changed observer with the new value while get() = new, each "
             "once, in subscription order, and touches nothing else; set(), operator= and operator>> are the same call and bindings write through setHelper. "
